@@ -241,7 +241,12 @@ func installFunctions(in *Interp, p *Pkg) {
 		return nil, in.mkerr(a[0].S, "user", a[1:]...)
 	})
 	defFn(p, "rethrow", 0, 0, func(in *Interp, a []*V) (*V, *Err) {
+		// docs/lang.md, "Rethrowing Errors": re-raises the current error being
+		// handled - the one the innermost RUNNING handler was called with (a
+		// handler-bind that ended while that handler ran no longer counts) - with
+		// its original stack trace and condition data
 		if n := len(in.CondStack); n > 0 {
+			in.CondStack[n-1].Rethrown++
 			return nil, in.CondStack[n-1]
 		}
 		return nil, in.errf("rethrow-outside-handler")
